@@ -247,10 +247,11 @@ class RF24:
             raise ValueError("address length cannot be 0")
         address = address[:5]
         if pipe_number < 2:
-            if not pipe_number:
-                self._pipe0_read_addr = address
             for i, val in enumerate(address):
                 self._pipes[pipe_number][i] = val  # type: ignore[assignment, index]
+            if not pipe_number:
+                # a short address only alters the existing one: remember all 5 bytes
+                self._pipe0_read_addr = bytearray(self._pipes[0])  # type: ignore[arg-type]
             self._reg_write_bytes(RX_ADDR_P0 + pipe_number, address)
         else:
             self._pipes[pipe_number] = address[0]
